@@ -23,7 +23,7 @@ use crate::util::*;
 pub const PROP: Prop = Prop {
     id: "C03",
     level: "exploration",
-    rule: "(rounds 6-7: a stream that answers WouldBlock for ever - a call that polls more than 140 times counts as not returning; a stream that fails transiently 1-100 levels inside a list, vector, quotation or dotted chain, 1-7 times, after which the same parser must still accept a datum nested 100 levels) (a) every byte string of length <= 2 (quick) / <= 3 (thorough) under 8 representative plus seeded parser option sets; (b) token-alphabet sequences, (c) mutations of printed text, (d) string and character literals in every escape spelling of both syntaxes with code points at every boundary of the scalar-value range (surrogates, 10FFFF, 110000, 2^32-1), truncated and with trailing junk, and arbitrary bytes, each under sampled option sets (all 1536 reachable), three sources, value and datum API, single-shot and iterated with a cap of len+2 calls - all in-process under catch_unwind; (e) pathological shapes in child processes on a 2 MiB stack: n = 10^3..10^6 repetitions of every opener ( [ #( ' ` , ,@ '(a . ' #u8( \" \"\\ #\\ ; and generated mixtures, unterminated and well-formed, flat runs of 2*10^5 (10^6) comment lines, whitespace bytes and complete tokens followed by a probe datum, plus hundreds of over-deep groups in one iterated stream followed by a shallow probe datum; (f) well-formed nesting of depth 1..100 through every nesting construct and mixtures must be accepted, depth >= 200 must be rejected. non-trivial = the input is not accepted as a single atom; every child case counts; distinct by digest of (input or shape, options, api)",
+    rule: "(round 8: character literals followed by non-ASCII characters whose UTF-8 form ends in 0x80/0xBF and by stray bytes; a NUL byte inside generated inputs) (rounds 6-7: a stream that answers WouldBlock for ever - a call that polls more than 140 times counts as not returning; a stream that fails transiently 1-100 levels inside a list, vector, quotation or dotted chain, 1-7 times, after which the same parser must still accept a datum nested 100 levels) (a) every byte string of length <= 2 (quick) / <= 3 (thorough) under 8 representative plus seeded parser option sets; (b) token-alphabet sequences, (c) mutations of printed text, (d) string and character literals in every escape spelling of both syntaxes with code points at every boundary of the scalar-value range (surrogates, 10FFFF, 110000, 2^32-1), truncated and with trailing junk, and arbitrary bytes, each under sampled option sets (all 1536 reachable), three sources, value and datum API, single-shot and iterated with a cap of len+2 calls - all in-process under catch_unwind; (e) pathological shapes in child processes on a 2 MiB stack: n = 10^3..10^6 repetitions of every opener ( [ #( ' ` , ,@ '(a . ' #u8( \" \"\\ #\\ ; and generated mixtures, unterminated and well-formed, flat runs of 2*10^5 (10^6) comment lines, whitespace bytes and complete tokens followed by a probe datum, plus hundreds of over-deep groups in one iterated stream followed by a shallow probe datum; (f) well-formed nesting of depth 1..100 through every nesting construct and mixtures must be accepted, depth >= 200 must be rejected. non-trivial = the input is not accepted as a single atom; every child case counts; distinct by digest of (input or shape, options, api)",
     assumptions: &[
         "the documented recursion limit is 128; depths between 101 and 199 are not asserted either way",
         "a child killed by a signal is an abort (violation); a child exceeding the 60 s watchdog is reported as inconclusive, never as a violation",
